@@ -12,7 +12,12 @@ pub mod vx_keys {
         ensures #[trigger] vx_ix(k) == k.0 as usize;
     pub broadcast axiom fn ax_ix_buildid(k: crate::graph::BuildId)
         ensures #[trigger] vx_ix(k) == k.0 as usize;
-    pub broadcast group group_keys { ax_ix_fileid, ax_ix_buildid }
+    /// ASSUMED: the (derived) Hash/Eq impls of the id types make them valid hash-table keys
+    pub broadcast axiom fn ax_key_model_fileid()
+        ensures #[trigger] vstd::std_specs::hash::obeys_key_model::<crate::graph::FileId>();
+    pub broadcast axiom fn ax_key_model_buildid()
+        ensures #[trigger] vstd::std_specs::hash::obeys_key_model::<crate::graph::BuildId>();
+    pub broadcast group group_keys { ax_ix_fileid, ax_ix_buildid, ax_key_model_fileid, ax_key_model_buildid }
     }
 }
 pub use crate::vx_keys::{vx_ix, ix};
@@ -39,4 +44,14 @@ impl vstd::std_specs::cmp::PartialEqSpecImpl for crate::graph::BuildId {
 }
 pub assume_specification<T> [std::mem::replace] (dest: &mut T, src: T) -> (r: T)
     ensures r == *old(dest), *final(dest) == src;
+}
+
+// R10 drops derive(Hash); the ids are used as hash-map keys, so give them back the derived impl (unverified, trusted)
+#[verifier::external]
+impl std::hash::Hash for crate::graph::BuildId {
+    fn hash<H: std::hash::Hasher>(&self, state: &mut H) { self.0.hash(state) }
+}
+#[verifier::external]
+impl std::hash::Hash for crate::graph::FileId {
+    fn hash<H: std::hash::Hasher>(&self, state: &mut H) { self.0.hash(state) }
 }
